@@ -111,6 +111,12 @@ def encVarMap (m : VarMap) : String :=
   if m.isEmpty then "ok ~" else "ok " ++ " ".intercalate (m.map (fun e => s!"{encStr e.1}={encBool e.2.init}:{e.2.index}"))
 
 /-- ops of the query-translation layer (Model/Translate.lean) -/
+def encNumLit : NumLit → String
+  | .int n => "I" ++ toString n
+  | .dec q => "D" ++ toString q.num ++ "/" ++ toString q.den
+  | .nonFinite => "NF"
+  | .bad => "BAD"
+
 def stepTranslate (ws : List String) : Option String :=
   match ws with
   | ["starcount", js, s] => some (encStr (if decBool js then replaceStarCountJs (decStr s) else replaceStarCountPy (decStr s)))
@@ -188,6 +194,11 @@ def stepTranslate (ws : List String) : Option String :=
       | .error (.var (.columnNotFound _)) => "err notfound"
       | .error (.var (.badDirectName _)) => "err badname"
       | .error (.var (.ambiguous _)) => "err ambiguous")
+  | ["pynum", s] =>
+    -- NumHandler.parse in integer mode and in float mode (Model/Number.lean)
+    some (encNumLit (numHandlerParseStr true (decStr s)).1 ++ " " ++ encNumLit (numHandlerParseStr false (decStr s)).1)
+  | ["jsnum", s] => some (encNumLit (jsNumber (decStr s)))
+  | ["numhandler", startInt, l] => some (" ".intercalate ((numHandlerRun (decBool startInt) (decList l)).map encNumLit))
   | ["unquotestr", s] => some (match unquoteString (decStr s) with | some v => "S" ++ encStr v | none => "N")
   | _ => none
 
